@@ -1,3 +1,49 @@
 package main
 
-func extractRest12(l *loaded, genDir, jsonDir string) error { return nil }
+import (
+	"go/ast"
+	"sort"
+)
+
+// extractRest12: the node types the CLI formatter (cmd/gosqlx/cmd/sql_formatter.go) has a case for, in
+// formatStatement and formatExpression; used by the C06 harness to name the construct behind a CLI failure.
+func extractRest12(l *loaded, genDir, jsonDir string) error {
+	p := l.pkgs["cmd/gosqlx/cmd"]
+	if p == nil {
+		return nil
+	}
+	cases := map[string][]string{}
+	for _, f := range p.Syntax {
+		for _, d := range f.Decls {
+			fd, ok := d.(*ast.FuncDecl)
+			if !ok || fd.Recv == nil || fd.Body == nil {
+				continue
+			}
+			if fd.Name.Name != "formatExpression" && fd.Name.Name != "formatStatement" {
+				continue
+			}
+			for _, st := range fd.Body.List {
+				ts, ok := st.(*ast.TypeSwitchStmt)
+				if !ok {
+					continue
+				}
+				for _, c := range ts.Body.List {
+					for _, t := range c.(*ast.CaseClause).List {
+						if se, ok := t.(*ast.StarExpr); ok {
+							if sel, ok := se.X.(*ast.SelectorExpr); ok {
+								cases[fd.Name.Name] = append(cases[fd.Name.Name], sel.Sel.Name)
+							}
+						}
+					}
+				}
+			}
+		}
+	}
+	for k := range cases {
+		sort.Strings(cases[k])
+	}
+	if err := writeJSON(jsonDir+"/cli_formatter.json", cases); err != nil {
+		return err
+	}
+	return extractRest13(l, genDir, jsonDir)
+}
